@@ -90,6 +90,10 @@ def ev(node, env):
             return env['isinstance'](*args)
         if isinstance(node.func, ast.Attribute) and node.func.attr in ('upper', 'lower', 'strip') and not args:
             return getattr(ev(node.func.value, env), node.func.attr)()
+        if isinstance(node.func, ast.Attribute) and node.func.attr == 'replace' and len(args) == 2:
+            base = ev(node.func.value, env)
+            if isinstance(base, str):
+                return base.replace(*args)
         if isinstance(node.func, ast.Attribute) and node.func.attr in ('get',) and 1 <= len(args) <= 2:
             return ev(node.func.value, env).get(*args)
         if fn in env and callable(env[fn]):
